@@ -113,6 +113,9 @@ Next == \/ \E o \in Objs : StartHs(o) \/ Tick(o) \/ TickJump(o)
 Spec == Init /\ [][Next]_vars
 
 -----------------------------------------------------------------------------
+\* the closed form of n ticks agrees with n single ticks on every reachable object
+TickManyOK == \A o \in Objs : \A n \in 0..4 : TickManyAgrees(obj[o], n)
+
 Completed(o) == done[o] >= 1
 Both == \A o \in Objs : Completed(o)
 
